@@ -1,5 +1,6 @@
 import Drv.Util
 import Model.Based
+import Model.Sha256
 
 /-! Driver for the `based` stream (C20): the model of `GetNextBatch` on a scripted DA. -/
 namespace Drv.C20
@@ -10,7 +11,18 @@ structure S where
   da : DA := {}
   st : St := {}
   last : List Bytes := []     -- the caller's lastBatchData (block manager: kept while no batch comes)
+  cids : Bool := false        -- `reset … ids=content`: the DA's ids are height ‖ sha256(blob), as core/da.DummyDA's
   deriving Inhabited
+
+/-- the DA answers with content-derived ids (`core/da/dummy.go`: `makeID(height, sha256(blob))`): byte-identical
+blobs of one height share an id. `getNextBatch` carries ids along and never compares them, so the model itself
+is unchanged; only the environment (the `da` argument) differs. -/
+def cidFetch (f : Nat → Fetch) (h : Nat) : Fetch :=
+  match f h with
+  | .ok items ts => .ok (items.map fun it => ⟨it.tx, Bytes.le 8 h ++ sha256 it.tx⟩) ts
+  | x => x
+
+def S.fetch (s : S) : Nat → Fetch := if s.cids then cidFetch s.da.fetch else s.da.fetch
 
 def tok (b : Bytes) : String := if b.isEmpty then "." else Bytes.toHex b
 
@@ -33,7 +45,7 @@ def tail (s : St) : String := s!"pos={showPos s.scanP} q={showQ s.pendP}"
 
 /-- one call as the block manager makes it; returns the new state and the response -/
 def call (s : S) (req : Req) : S × Out :=
-  let o := getNextBatch s.cfg s.da.fetch s.st req
+  let o := getNextBatch s.cfg s.fetch s.st req
   let last := match o.resp with
     | .batch items _ => items.map (·.id)
     | _ => s.last
@@ -48,7 +60,7 @@ def drain (max : Nat) : Nat → S → List Bytes → S × List Bytes
 def step (s : S) (line : String) : S × String :=
   let o := parseOp line
   match o.verb with
-  | "reset" => ({ cfg := ⟨o.nat "start", o.nat "drift"⟩ }, "ok")
+  | "reset" => ({ cfg := ⟨o.nat "start", o.nat "drift"⟩, cids := o.str "ids" == "content" }, "ok")
   | "put" =>
     match o.nat? "h", (o.get? "txs").bind parseHexList with
     | some h, some txs =>
@@ -100,7 +112,7 @@ def step (s : S) (line : String) : S × String :=
       | none => (s, "bad-op")
       | some last =>
         -- the real call runs, dies after its first `k` durable writes; the answer is not delivered
-        let out := getNextBatch s.cfg s.da.fetch s.st { idOk := !(o.bool "badid"), max := max, last := last }
+        let out := getNextBatch s.cfg s.fetch s.st { idOk := !(o.bool "badid"), max := max, last := last }
         let st := crashAt s.st out.writes k
         let und : String := match out.resp with
           | .errInvalidId => "err:invalid-id"
